@@ -646,4 +646,11 @@ func c03(c *ctx) {
 	for k := 0; k < nrf; k++ {
 		c03readFrom(c, k)
 	}
+	ncr := 6
+	if c.thorough() {
+		ncr = 60
+	}
+	for k := 0; k < ncr; k++ {
+		c03closeRace(c, k)
+	}
 }
